@@ -39,6 +39,15 @@ Definition uhistory (s : st) (es : list uevent) : st := fold_left do_uevent es s
 Definition utmps (es : list uevent) : list str :=
   flat_map (fun e => match e with UUpload final _ _ _ => [final ++ putfile_tmp_ext] | UPlant _ _ => [] end) es.
 
+(* the final names of the uploads of a history *)
+Definition ufinals (es : list uevent) : list str :=
+  flat_map (fun e => match e with UUpload final _ _ _ => [final] | UPlant _ _ => [] end) es.
+
+(* THE GUARD under which the history theorems speak about every final name: no final name of the history is the temporary
+   of an upload of the history (`x.partial` uploaded as a file of its own, and `x` uploaded too).  The service does not
+   enforce it -- it accepts names that end in the temporary extension --: UploadHistProofs.upload_name_is_temporary_refuted *)
+Definition no_name_collision (es : list uevent) : Prop := forall f, In f (ufinals es) -> ~ In f (utmps es).
+
 (* what may legitimately be seen at a name that is not one of those temporaries: the initial entry, a planted link,
    or the COMPLETE content of one of the uploads that were sent under that name *)
 Definition uallowed (s0 : st) (es : list uevent) (q : str) (v : view) : Prop :=
@@ -125,6 +134,45 @@ Definition list_incidents (base : str) (listing : list str) (since : str) : list
       if str_ltb since bn then [(bn, join base fn)] else []
     else []) listing.
 
+(* ---- files that are opened FOR READING: the same `followed` flag, for a read that goes through a symbolic link ----
+   (what is read then is the link's target: a file that need not be in the directory).  A read changes nothing in the file
+   system.  A read that raises (directory, missing entry) stops the call: `failed`.  What happens AFTER a link was followed
+   (the target may be missing: the open raises) is outside the model; the flag is what containment is about. *)
+Inductive rop :=
+| ROpen (p : str)              (* open(p, "r" | "rb") / BZ2File(p): FOLLOWS a symbolic link at p *)
+| ROpenUnlessLink (p : str).   (* the same open behind an lstat test: `if not islink(p): open(p)` resp. `if islink(p): continue | raise`
+                                  in front of it -- a link at p is not opened (whether the call then goes on or raises is not observed) *)
+
+Definition mark_followed (s : st) : st := mkst (names s) (data s) (next s) (handle s) (failed s) true.
+Definition is_link (s : st) (p : str) : bool := match names s p with Some (L _) => true | _ => false end.
+
+Definition rstep (s : st) (o : rop) : st :=
+  if failed s then s else
+  match o with
+  | ROpen p => match names s p with Some (F _) => s | Some (L _) => mark_followed s | _ => fail s end
+  | ROpenUnlessLink p => match names s p with Some (F _) | Some (L _) => s | _ => fail s end
+  end.
+Definition rrun (s : st) (ops : list rop) : st := fold_left rstep ops s.
+
+(* the open as the source has it: behind the lstat test, or bare (the flags are read off the source by g_upload.py) *)
+Definition guarded_read (g : bool) (p : str) : rop := if g then ROpenUnlessLink p else ROpen p.
+(* a fresh call on the directory as it is *)
+Definition calm (s : st) : st := mkst (names s) (data s) (next s) (handle s) false false.
+
+(* list_incident_names ON A DIRECTORY STATE: with `if os.path.islink(fullname): continue` in front of the yield an entry that
+   is a symbolic link is not reported (listing_link_skipped, read off the source); without it, it is *)
+Definition list_incidents_at (s : st) (base : str) (listing : list str) (since : str) : list (str * str) :=
+  filter (fun np => negb (listing_link_skipped && is_link s (snd np))) (list_incidents base listing since).
+
+(* remote_list_incidents: get_incident_trigger opens every reported file, in the order of the listing.
+   (IncidentSubscription.catch_up opens a subset of them -- one per basename -- in sorted order: the theorems are stated for
+   EVERY sequence of reads of reported files.) *)
+Definition listing_read_ops (s : st) (base : str) (listing : list str) (since : str) : list rop :=
+  map (fun np => ROpen (snd np)) (list_incidents_at s base listing since).
+
+(* IncidentObserver.connect: the state file `latest` is read back (and its content sent to the publisher as since=) *)
+Definition connect_read_ops (base : str) : list rop := [guarded_read gatherer_state_read_guarded (join base gatherer_latest)].
+
 (* everything IncidentObserver._got_incident writes for one incident: the savefile and the `latest` marker *)
 Definition gatherer_writes (cwd base name : str) : option (list str) :=
   option_map (fun q => [q; join base gatherer_latest]) (gatherer_path cwd base name).
@@ -150,15 +198,18 @@ Definition publisher_opened (s : st) (paths : list str) : option str :=
   | [p1; p2] => Some (if exists_at exists_fuel s p1 then p1 else p2)
   | _ => None
   end.
-Definition is_link (s : st) (p : str) : bool := match names s p with Some (L _) => true | _ => false end.
-Definition publisher_reads_through_link (s : st) (cwd base name : str) : bool :=
+(* the read of remote_get_incident as an operation list: the selected file, behind `if os.path.islink(fn): raise KeyError`
+   or not (publisher_link_refused, read off the source) *)
+Definition publisher_read_ops (s : st) (cwd base name : str) : list rop :=
   match publisher_paths cwd base name with
   | Some paths => match publisher_opened s paths with
-                  | Some p => negb publisher_link_refused && is_link s p
-                  | None => false
+                  | Some p => [guarded_read publisher_link_refused p]
+                  | None => []
                   end
-  | None => false
+  | None => []
   end.
+Definition publisher_reads_through_link (s : st) (cwd base name : str) : bool :=
+  followed (rrun (calm s) (publisher_read_ops s cwd base name)).
 
 (* ---- an operating-system operation of an UPLOAD fails (errno) instead of being performed ----
    a failing f.write() raises inside _got_data, which reaches _got_error and hence remote_putfile's _err (that is the
